@@ -3,6 +3,7 @@ import XV.Props.C05
 import XV.Props.C03
 import XV.Lemmas.CrashCheck
 import XV.Lemmas.CrashSteps
+import XV.Lemmas.CrashRestart
 /-!
 C06 — crash consistency at every storage-write boundary.
 
@@ -22,19 +23,26 @@ operations, `opTrace` the node after each batch of one operation, `crashStates e
 leave behind when the process dies after any batch, `recover` the restart (miner loop: walk the state to the ledger
 tip unless it is there already). Proved for ALL histories and ALL crash points (inductions over the operation list
 and over the trace, no enumeration):
-  (a) `crash_state_at_block_boundary`, `crash_state_invariants`, `crash_history_invariants`;
+  (a) `crash_state_at_block_boundary`, `crash_state_invariants`, `crash_history_invariants`,
+      `crash_history_canonical`;
   (b) `crash_ledger_invariant`;
-  (c) `walk_resume`, `crash_recovery_confluent`, `crash_recovery_canonical`;
+  (c) `crash_walk_resume`, `crash_during_restart`, `crash_recovery_confluent`, `crash_recovery_canonical`,
+      `crash_recovery_same_tables`; refuted: `crash_recovery_same_state_statement` (the pool is NOT recovered);
   (d) `crash_irrev_along_walk`, `crash_irrev_monotone`.
-What is taken as hypothesis and not proved here: that the nodes of the UNINTERRUPTED run satisfy the C01 / C02
-invariants between operations (`History.sinv`, `History.led`) — C01 / C02 prove this operation by operation under
-their side conditions, except `play` on a non-empty pool and `playForMiner` against the canonical state (open in C01).
+What is taken as hypothesis: the crash theorems reduce "every crash state is good" to "the nodes of the UNINTERRUPTED
+run between two operations are good" plus side conditions of the walks. For the C01 half (`SInv`) the uninterrupted
+run is handled here too, from per-operation side conditions (`SStep`, `crash_history_canonical`); the one place
+where the step condition is the conclusion itself is `play` on a non-empty pool and `playForMiner` (that they keep
+the node on the canonical state is open in C01). For the C02 half (`Ledger`, ghost logs) `History.led` asks the
+invariant of the uninterrupted run as a hypothesis: C02 proves it operation by operation, threading the ghost log
+through arbitrary histories (`hundo` of `walk_Ledger`) is open there. Section 3 shows on a fork history that all
+hypotheses can be met.
 
 CORRESPONDENCE A GO HARNESS SHOULD CHECK (to tie `walkTrace` to the code as `walk` itself is tied; not yet a driver
 operation, the line-protocol driver is frozen). Log the write groups of the state DB during one `State.Walk(dest,
 prune)` started from a state the model agrees with, `lh` = ledger trunk height, `T = walkTrace e s lh dest prune`:
-  * write group 0 (RollBackUnconfirmedTx, possibly an empty batch when the pool is empty — then `T[0]` has the
-    tables of `s`): afterwards tables U / ZU / ZD / M(total, pointer, irrev) / N(pool) = `T[0]`, pool empty;
+  * write group 0 (RollBackUnconfirmedTx: its `batch.Write()` is unconditional, an empty batch when the pool is
+    empty — then `T[0]` has the tables of `s`): afterwards tables U / ZU / ZD / M(total, pointer, irrev) / N(pool) = `T[0]`, pool empty;
   * write group k, 1 ≤ k ≤ u, u = number of undone blocks (procUndoBlkForWalk, one batch per block, newest first):
     afterwards = `T[k]`, pointer = parent of the k-th block of `FindUndoAndTodoBlocks`' undo list;
   * write group u + j, 1 ≤ j ≤ t (procTodoBlkForWalk, one batch per block, oldest first): afterwards = `T[u + j]`,
@@ -495,6 +503,20 @@ example : ∀ x ∈ walkMid cEnv cM.s (lh cM) 4 false,
     (walk cEnv x (lh cM) 4 false).1.ZU = (walkCore cEnv cM.s (lh cM) 4 false).1.ZU ∧
     (walk cEnv x (lh cM) 4 false).1.ZD = (walkCore cEnv cM.s (lh cM) 4 false).1.ZD ∧
     (walk cEnv x (lh cM) 4 false).1.total = 28 := by decide
+
+/-- **dying again during the restart leaves nothing new** (the write sequence of a scenario with restarts): every
+element of the trace of the walk that resumes an interrupted walk from one of its block-boundary states is again a
+block-boundary state of the ORIGINAL walk — so everything proved for the crash states of a walk holds for the crash
+states of its restarts, and of the restarts of those -/
+theorem crash_during_restart (e : Env) (s : St) (lh : Int) (dest : Nat) (prune : Bool) (W : WalkTree e s.pointer dest)
+    (x : St) (hx : x ∈ walkMid e s lh dest prune) (x' : St) (hx' : x' ∈ walkTrace e x lh dest prune) :
+    x' ∈ walkMid e s lh dest prune :=
+  walkTrace_restart_closed e s lh dest prune W x hx x' hx'
+
+-- the restarts of the walk across the fork, interrupted again: only the four block-boundary states occur
+example : ∀ x ∈ walkMid cEnv cM.s (lh cM) 4 false, ∀ x' ∈ walkTrace cEnv x (lh cM) 4 false,
+    (x'.pointer, x'.pool, x'.total, x'.irrev) ∈ [(2, [], 18, 0), (1, [], 8, 0), (3, [], 18, 0), (4, [], 28, 1)] := by
+  decide
 
 /-- **(c) recovery after a crash inside the synchronisation walk reaches the state of the uninterrupted run.**
 Operation `k` of the history walks the state to the ledger tip (`walk tip false`, the node's step after
